@@ -16,11 +16,12 @@ from .common import Check
 LEVEL = "exploration"
 BATCH = 400
 ALPHABET = ["char", "int", "llong", "bool", "float", "double", "ptr", "fnptr12", "fnptr13", "arr2i", "arr32", "arr33", "zla", "enum",
-            "bfA", "bf32B", "bf33B", "nestplain", "nestfloat", "ptrarr", "anonu", "fntd2", "fntd13", "pfntd13"]
+            "bfA", "bf32B", "bf33B", "nestplain", "nestfloat", "ptrarr", "anonu", "fntd2", "fntd13", "pfntd13", "arr2x40", "arrfn13", "arrarr33"]
 INT_ATOMS = {"char", "uchar", "short", "int", "uint", "llong", "bool", "td", "arr2i", "arr3c", "arr32", "nestplain", "bfA"}
 FLOAT_ATOMS = {"float", "double", "nestfloat"}
 PTR_ATOMS = {"ptr", "cptr", "fnptr12", "ptrarr", "fntd2"}
-FN13 = {"fnptr13", "fntd13", "pfntd13"}
+FN13 = {"fnptr13", "fntd13", "pfntd13", "arrfn13"}
+LARGE = {"arr33", "arr2x40", "arrarr33"}   # element count (or an element's element count) past the 32 limit: only Default is affected on current targets
 TRAITS = ["Copy", "Clone", "Debug", "Default", "Hash", "PartialEq", "PartialOrd", "Eq", "Ord"]
 # option bits: (name, flag when bit set, trait it governs, default-on?)
 OPTS = [("copy", "--no-derive-copy", "Copy", True), ("debug", "--no-derive-debug", "Debug", True), ("default", "--with-derive-default", "Default", False),
@@ -61,7 +62,7 @@ def expectation(c, trait, en):
     if trait in ("Eq", "Ord", "Hash") and atoms & FLOAT_ATOMS:
         return "must-not"
     # function pointers are emitted as Option<fn>, whose Default is None: only raw (data) pointers rule Default out
-    if trait == "Default" and (atoms & {"ptr", "cptr", "ptrarr"} or "arr33" in atoms):
+    if trait == "Default" and (atoms & {"ptr", "cptr", "ptrarr"} or atoms & LARGE):
         return "must-not"
     if trait in ("Debug", "Hash", "PartialEq", "PartialOrd") and atoms & FN13:
         return "must-not"
@@ -175,12 +176,42 @@ def run(ck, only=None):
     ck.sample({"record": cases[len(cases) // 2].cid if cases else None, "options": flags_of(0b10110100)})
     ck.extra["records"] = len(cases)
     ck.extra["option_combinations"] = len(variants)
+    if not only or only.get("sound"):
+        soundness(ck, cases, only)
     if not only or only.get("behaviour"):
         behaviour(ck, cases)
     if not only or only.get("cxx"):
         cxx_rules(ck)
     ck.assume("the specification is deliberately three-valued: anything the property does not constrain (non-plain attributes, mixed "
               "members, trait dependencies such as Eq without PartialEq) is FREE; enum members are integers under the default enum style")
+
+
+SOUND_MASKS = [("all-derives", 0b11111100, False), ("all-derives+impl", 0b11111100, True), ("all-derives+no-copy", 0b11111101, False),
+               ("no-copy", 0b00000001, False), ("no-copy+no-debug+default", 0b00000111, False), ("defaults", 0, False)]
+
+
+def soundness(ck, cases, only=None):
+    """A derive that a constituent cannot support does not compile: rustc on the complete output of every plain record under the
+    option sets that request the most (and under --no-derive-copy, which changes how unions are emitted)."""
+    sel = [c for c in cases if c.rattr == "plain" and not c.mattr]
+    if only:
+        sel = [c for c in sel if c.cid == only.get("cid")]
+    for vname, mask, imp in SOUND_MASKS:
+        if only and only.get("sound") != vname:
+            continue
+        fl = flags_of(mask) + (["--impl-debug", "--impl-partialeq"] if imp else []) + ["--no-layout-tests"]
+        batches = [(f"s{i // BATCH}", sel[i:i + BATCH]) for i in range(0, len(sel), BATCH)]
+        res, _ = probes.compile_batches(batches, os.path.join(ck.wd, "sound_" + vname.replace("+", "_")), fl, contexts=False, prelude="#![allow(warnings)]\n")
+        for c in sel:
+            ck.count()
+            ck.nontriv(("sound", c.cid, vname))
+            msgs = res.get(c.tag)
+            if msgs:
+                codes = ",".join(sorted({m.split()[0] for m in msgs if m.startswith("E")})) or "error"
+                from .c01 import structure_class
+                ck.violation(f"{c.cid} opts={vname} does-not-compile {codes}",
+                             {"cid": c.cid, "sound": vname, "predicate": f"unsound|{codes}|{structure_class(c)}|{vname}", "source": c.source(),
+                              "why": "rustc rejects the derives of this record: " + " | ".join(msgs)[:500]})
 
 
 CXX_RULES_HPP = r"""
